@@ -223,10 +223,18 @@ def bridged_cys(ctx):
     from .. import observe
     bad = []
     n = 0
-    for name, text in pdbgen.test_files(["1FTJ-Chain-A", "3SGB-subset"] if ctx.quick() else None):
-        o = observe.run(text, want_text=False)
+    runs = [(name, text, []) for name, text in pdbgen.test_files(["1FTJ-Chain-A", "3SGB-subset"] if ctx.quick() else None)]
+    # the bridged pair under every option path that touches titratability
+    ss = pdbgen.text(pdbgen.ss_fragment())
+    for args in ([], ["--titrate_only", "E:42,E:57"], ["--titrate_only", "E:42,E:58"], ["--protonate-all"], ["-k"], ["-d"], ["-c", "E"]):
+        runs.append(("ss-bridge %s" % " ".join(args), ss, args))
+    for name, text, args in runs:
+        o = observe.run(text, args, want_text=False)
         if o.error:
             continue
+        listed = None
+        if "--titrate_only" in args:
+            listed = {int(x.split(":")[1]) for x in args[1].split(",")}
         for cname, conf in o.mol.conformations.items():
             if cname == "AVR":
                 continue
@@ -236,7 +244,8 @@ def bridged_cys(ctx):
                     continue
                 n += 1
                 near = any(s is not g.atom and sum((p - q) ** 2 for p, q in zip((s.x, s.y, s.z), (g.atom.x, g.atom.y, g.atom.z))) < 6.25 for s in sulf)
-                if bool(g.atom.cysteine_bridge) != near or (near and (g.titratable or abs(g.pka_value - 99.99) > 1e-9)) or (not near and not g.titratable):
+                free_ok = g.titratable or (listed is not None and g.atom.res_num not in listed)
+                if bool(g.atom.cysteine_bridge) != near or (near and (g.titratable or abs(g.pka_value - 99.99) > 1e-9)) or (not near and not free_ok):
                     bad.append((name, cname, g.label, near, g.atom.cysteine_bridge, g.titratable, g.pka_value))
     ctx.count("cys groups checked", n)
     for b in bad[:2]:
